@@ -259,3 +259,33 @@ def c12(run):
                         "the compressor/decompressor are uninterpreted in the specification; scripted fakes exercise cbuf and the suffixed reader exactly"]
     records_check(run, b, "c12", "C12Records", env={"C12_IN": ind}, post=post)
     return run.finish("model_checking")
+
+
+@prop("C09")
+def c09(run):
+    b = run.build()
+    run.assumptions += ["Handshake!ServerVerdict / AllowedStatus transcribe the property; the request is generated from token classes, so the classes are ground truth (no classification parse)",
+                        "open: a 24-character key that is not base64, an empty Host value, duplicated headers with different values, HTTP/2.0 through HTTPUpgrader",
+                        "Sec-WebSocket-Accept is recomputed by the harness with crypto/sha1 + base64 (DESIGN 10)"]
+    records_check(run, b, "c09", "C09Records")
+    return run.finish("exploration")
+
+
+@prop("C10")
+def c10(run):
+    b = run.build()
+    run.assumptions += ["Handshake!ClientVerdict transcribes the property: only the literal status token 101 counts; status tokens with leading zeros are not generated (open)",
+                        "expected request-URI / Host / dial address per URL form are written by hand in the driver table (ground truth), the request is parsed by the harness' own HTTP head parser",
+                        "Sec-WebSocket-Accept is computed by the harness with crypto/sha1 + base64"]
+    records_check(run, b, "c10", "C10Records")
+    return run.finish("exploration")
+
+
+@prop("C11")
+def c11(run):
+    b = run.build()
+    vlib.tlc_model(run, "ReadLine", workers=1)
+    run.assumptions += ["ReadLine.tla: TLC evaluates readLine-over-ReadSlice against the expected line for all 3280 streams over {x, CR, LF} up to length 7 and buffer sizes 2..4 (a constant-level check: no state graph)",
+                        "agreement is checked for library-owned selectors/negotiators; the client's random key is masked before request bytes are compared"]
+    records_check(run, b, "c11", "C11Records")
+    return run.finish("exploration")
